@@ -34,8 +34,10 @@ def load(source, name="f", extra=None, modname="genmod"):
 def forget(glb):
     """Drop linecache entries of a finished case (keeps memory flat over 10^5 cases)."""
     fn = None
+    import types
+
     for v in glb.values():
-        code = getattr(v, "__code__", None)
+        code = v.__code__ if isinstance(v, types.FunctionType) else None
         if code is not None and code.co_filename.startswith("<verif-gen-"):
             fn = code.co_filename
             break
@@ -53,6 +55,8 @@ class Hooks:
         self.supplies = supplies or {}
         self.depth = 0
         self.runaway = False
+        self.bind_tags = []  # parallel to the ("bind", ...) entries of trace
+        self.bind_reprs = []  # repr of the bound value at binding time
 
     def enter(self):
         self.depth += 1
@@ -65,13 +69,15 @@ class Hooks:
     def error(self, e):
         self.trace.append(("error", type(e).__name__, e))
 
-    def bind(self, name, value):
+    def bind(self, name, value, tags=()):
         if len(self.trace) > 20000:
             self.runaway = True
             raise MemoryError("reference trace overflow (runaway loop)")
         if self.policy is not None:
             value = self.policy(name, value, self)
         self.trace.append(("bind", name, value))
+        self.bind_tags.append(tuple(tags))
+        self.bind_reprs.append(nrepr(value))
         self.latest[name] = value
         return value
 
